@@ -208,4 +208,15 @@ def JL.toCTs : JL → Option (List CT)
     | _, _ => none
 end
 
+/-- the decoder reading the stream value by value -/
+def decodeStream (s : List Char) : Option (List J) := parseLines (s.length + 1) s
+
+/-- read every decoded value as a tree -/
+def readAll : List J → Option (List CT)
+  | [] => some []
+  | j :: js =>
+    match j.toCT, readAll js with
+    | some t, some ts => some (t :: ts)
+    | _, _ => none
+
 end Gtree.Json
